@@ -185,6 +185,7 @@ fn gen(r: &mut Rng, tier: &Tier, out: &mut Vec<String>) {
             let mut sp = ConnSpec::new(ck, (case / 3 + j) % 3 == 2, (case as u64 * 13 + j as u64 * 47) % 5000 + j as u64 * 6000);
             match r.below(3) { 0 => sp.tfo = true, 1 => sp.bare = true, _ => {} }
             if j == 0 { sp.tfo = k != 'H'; sp.bare = k == 'H'; }
+            if r.chance(1, 2) { sp.macs = Some(pick_macs(r)); }   // MAC first octets 0x45.., 0x6X, 1e 00, 00, ff
             let t0 = 1_000_000 + r.below(1000);
             conns.push(connection(r, &sp, t0));
         }
